@@ -116,6 +116,34 @@ func states() []*g.State {
 		s.Keys = []g.KeyRow{{Eon: 1, Ident: idB, Val: key(0, idB)}}
 	})
 	add("max-keys-huge", func(s *g.State) { s.MaxKeys = 5000 })
+	// partial states: a handler looks two things up and only one of them is there (the normal
+	// window while a new keyper set's key generation runs, or while one of two syncers lags)
+	add("access:keyper-set-only", func(s *g.State) { s.AnKeys = nil })
+	add("access:eon-key-only", func(s *g.State) { s.AnKSets = nil; s.AnKeysFirst = true })
+	add("access:neither", func(s *g.State) { s.AnKeys, s.AnKSets = nil, nil })
+	add("access:both-for-1,keyper-set-only-for-2,eon-key-only-for-3", func(s *g.State) {
+		s.AnKSets = append(s.AnKSets, g.AnKSet{Eon: 2, Keypers: []int{0, 1, 2}, Threshold: 2})
+		s.AnKeys = append(s.AnKeys, g.AnKey{Eon: 3, Set: 0})
+		s.KSets = append(s.KSets, g.KSetRow{Kci: 2, Keypers: []int{0, 1, 2}, Threshold: 2})
+		s.Configs = append(s.Configs, g.ConfigRow{Kci: 3, Keypers: []int{0, 1, 2}})
+		s.Eons = append(s.Eons, g.EonRow{Eon: 7, Kci: 3})
+		s.Dkg = append(s.Dkg, g.DkgRow{Eon: 7, Kind: "ok", Set: 0, NShares: 3, T: 2})
+	})
+	add("access:keys-before-sets,eon-key-only-for-2,keyper-set-only-for-3", func(s *g.State) {
+		s.AnKeysFirst = true
+		s.AnKeys = append(s.AnKeys, g.AnKey{Eon: 2, Set: 1})
+		s.AnKSets = append(s.AnKSets, g.AnKSet{Eon: 3, Keypers: []int{0, 1}, Threshold: 1})
+	})
+	add("keyper-set-without-dkg-result", func(s *g.State) { s.Dkg = nil })
+	add("dkg-result-without-keyper-set", func(s *g.State) { s.KSets = nil })
+	add("dkg-result-without-batch-config", func(s *g.State) { s.Configs = nil })
+	add("eon-row-only", func(s *g.State) { s.Configs, s.Dkg, s.KSets = nil, nil, nil })
+	add("batch-config-only", func(s *g.State) { s.Eons, s.Dkg, s.KSets, s.Collators = nil, nil, nil, nil })
+	add("keyper-set-for-2-core-tables-for-1", func(s *g.State) { s.KSets = []g.KSetRow{{Kci: 2, Keypers: []int{0, 1, 2}, Threshold: 2}} })
+	add("core-tables-for-2-keyper-set-for-1", func(s *g.State) {
+		s.Configs = []g.ConfigRow{{Kci: 2, Keypers: []int{0, 1, 2}}}
+		s.Eons = []g.EonRow{{Eon: 5, Kci: 2}}
+	})
 	return out
 }
 
@@ -239,9 +267,13 @@ func mutations(mat *g.Material, fl string) []mutation {
 	}
 	add("none", func(m *g.Msg) {})
 	add("instance", func(m *g.Msg) { m.Inst = 8 })
-	for _, e := range []uint64{0, 2, math.MaxInt64, 1 << 63, math.MaxUint64, 1<<32 + 1} {
+	for _, e := range []uint64{0, 2, 3, math.MaxInt64, 1 << 63, math.MaxUint64, 1<<32 + 1} {
 		e := e
 		add(fmt.Sprintf("eon=%d", e), func(m *g.Msg) { m.Eon = e })
+	}
+	for _, e := range []uint64{2, 3} {
+		e := e
+		add(fmt.Sprintf("eon=%d-resigned", e), func(m *g.Msg) { m.Eon = e })
 	}
 	for _, k := range []uint64{0, 2, 3, 1 << 31, 1 << 63, math.MaxUint64} {
 		k := k
@@ -629,13 +661,19 @@ func (r *runner) structCases(emit func(*caseJ)) {
 			// the valid message and the index / length mutations against every state; handled in
 			// another state than validated
 			for i, st := range sts {
-				for _, name := range []string{"none", "kidx=2", "kidx=3", "signers=3,signatures=2", "signers=0,signatures=0", "signers=[1 2]", "block=100"} {
+				// the access node's storage states only concern the access node; it reads nothing else
+				if isAccessState := strings.HasPrefix(st.Name, "access:"); (fl == "access") != (isAccessState || st.Name == "base") && !(fl != "access" && !isAccessState) {
+					continue
+				}
+				for _, name := range []string{"none", "eon=2", "eon=3", "eon=2-resigned", "eon=3-resigned", "kidx=2", "kidx=3", "signers=3,signatures=2", "signers=0,signatures=0", "signers=[1 2]", "block=100"} {
 					for _, mu := range muts {
 						if mu.name != name {
 							continue
 						}
 						m := base.Clone()
-						m.Fill()
+						if !strings.HasSuffix(mu.name, "-resigned") {
+							m.Fill()
+						}
 						mu.f(m)
 						emit(&caseJ{Kind: "bytes", Flavour: fl, State: st, State2: sts[(i+3)%len(sts)], RegTopic: topic, MsgTopic: topic,
 							Data: hex.EncodeToString(encodeMsg(r.mat, m)), Origin: "struct:" + fl + ":" + base.Type + ":state:" + st.Name + ":" + mu.name})
@@ -912,10 +950,10 @@ func main() {
 		run.Replay = ""
 	}
 	r.structCases(exec)
-	for i, n := 0, run.Scale(2500, 60000); i < n; i++ {
+	for i, n := 0, run.Scale(2000, 60000); i < n; i++ {
 		r.structPairCase(run.RNG.Fork(), exec)
 	}
-	for i, n := 0, run.Scale(6000, 150000); i < n; i++ {
+	for i, n := 0, run.Scale(4500, 150000); i < n; i++ {
 		r.rawCase(run.RNG.Fork(), exec)
 	}
 }
